@@ -131,7 +131,12 @@ func (c Case) hasFormDefault() bool {
 func isKeyword(a string) bool { return strings.HasPrefix(a, ":") }
 
 // argText is the canonical text (package sx) of the value of an argument.
-func argText(a string) string { return strings.ToLower(a) }
+func argText(a string) string {
+	if a == "()" {
+		return "nil"
+	}
+	return strings.ToLower(a)
+}
 
 // verdict of the reference binder.
 type verdict struct {
